@@ -20,12 +20,19 @@ def main():
     py, xs, lits = seeds.all_seeds()
     o = ("c02",)
     pycommon.b_full(chk, o, 2 if chk.quick else 3, python_only=True)
+    ep = seeds.expr_product()
+    pycommon.k0_texts(chk, o, ep, "expression kinds x positions k=0", wall=150 if chk.quick else 900, vac=("ok", "SyntaxError"))
+    pycommon.indent_skeleton(chk, o, 5 if chk.quick else 6, pycommon.CORE_OPTS, wall=150 if chk.quick else 1500)
+    pycommon.indent_skeleton(chk, o, 2 if chk.quick else 3, pycommon.RICH_OPTS, wall=120 if chk.quick else 1500, label="rich")
     if chk.quick:
+        pycommon.b_holes(chk, o, seeds.sample(chk.rng, py, 60), 2, wall=100, insert=True, name="B-holes insert k=1")
         pycommon.b_holes(chk, o, seeds.sample(chk.rng, py, 80), 3, wall=120)
         pycommon.a_holes(chk, o, seeds.sample(chk.rng, py, 40) + seeds.sample(chk.rng, lits, 30), 3, wall=100)
         cut_src = [s for s in seeds.sample(chk.rng, py, 40) if len(s) < 120]
     else:
         pycommon.b_holes(chk, o, py, 0, wall=2400)
+        pycommon.b_holes(chk, o, py, 0, wall=2400, insert=True, name="B-holes insert k=1")
+        pycommon.a_holes(chk, o, py, 0, wall=2400, insert=True, name="A-holes insert k=1")
         pycommon.a_holes(chk, o, py + [t for t in lits if len(t) < 120], 0, wall=2400)
         cut_src = [s for s in py if len(s) < 200]
     tf, ncuts = cut_textfn(cut_src)
